@@ -10,7 +10,7 @@ from .c01 import compare_times
 
 PROPERTY_ID = "C06"
 RULE = ("programs: Hypothesis build programs (<= 7 items per circuit, nesting <= 2, 4 qubits, <= 70 unrolled operations) "
-        "with repetition counts 1..4 at every level including the top circuit (fixed and registry-provided), branching "
+        "with repetition counts 1..4 at every level including the top circuit (fixed and registry-provided; in about half of the cases every registry key is re-assigned 1-2 other counts and then its own again before unrolling), branching "
         "blocks, all kinds and durations, with / without a listing before unrolling. Oracle: signature multiset after "
         "apply_modifiers() = leaves x product of enclosing counts; structural correspondence with the unrolled reference "
         "model (each copy's relation-less items follow a relation leaf of what precedes, everything else keeps its "
@@ -34,7 +34,8 @@ def cfg():
 
 def strat():
     from hypothesis import strategies as st
-    return st.fixed_dictionaries({"program": P.program_strategy(cfg()), "pre_list": st.booleans()})
+    return st.fixed_dictionaries({"program": P.program_strategy(cfg()), "pre_list": st.booleans(),
+                                  "restage": st.lists(st.integers(1, 4), max_size=2)})
 
 
 def cfg_dense():
@@ -78,7 +79,7 @@ def body(case, ctx):
                       for _, it in P.iter_items(program["top"]))
     ctx.case(case, nontrivial=big_block, classes=[
         f"big_block={big_block}", f"nested_reps={nested_reps}", f"top_reps={program['top'].get('reps', 1) > 1}",
-        f"pre_list={pre_list}", f"nesting={st['nesting']}",
+        f"pre_list={pre_list}", f"nesting={st['nesting']}", f"restaged_counts={bool(case.get('restage'))}",
         f"reg_reps={any(c.get('rmode') == 'reg' for c in [it['sub'] for _, it in P.iter_items(program['top']) if P.is_sub(it)])}"])
     facts = {"kinds": st["kinds"], "pre_list": pre_list, "nested_reps": nested_reps}
     root = M.build(program)
@@ -116,6 +117,15 @@ def body(case, ctx):
                     with ctx.lib("duration before"):
                         before_dur[path] = float(target.handles[path].duration)
         mod = ops = None
+        # registry-provided counts may be re-assigned any number of times before unrolling; the last value counts
+        for decoy in case.get("restage", []):
+            for key in sorted(target.rep_values):
+                with ctx.lib("RepetitionRegistry.set_registry_at"):
+                    target.repetition_registry.set_registry_at(key, decoy)
+        if case.get("restage"):
+            for key, value in sorted(target.rep_values.items()):
+                with ctx.lib("RepetitionRegistry.set_registry_at"):
+                    target.repetition_registry.set_registry_at(key, value)
         with ctx.lib("apply_modifiers"):
             mod = target.circuit.apply_modifiers()
             ops = list(mod.operations)
